@@ -102,6 +102,57 @@ func c20Replan(e *Env) {
 			pairs = append(pairs, pair{fmt.Sprintf("random edited pair %d", k), f, t})
 		}
 		pl, _, _ := plannerOf(d)
+		// change lists in which ONE change waits for several others that come later in the list (an enum type dropped
+		// with the tables that use it, a schema dropped with its tables): planned 12 times, the same statements in
+		// the same order every time
+		if d != "sqlite" {
+			sch := schema.New("s")
+			var drops []schema.Change
+			var en *schema.EnumType
+			if d == "postgres" {
+				en = &schema.EnumType{T: "mood", Values: []string{"a", "b"}, Schema: sch}
+				drops = append(drops, &schema.DropObject{O: en})
+			} else {
+				drops = append(drops, &schema.DropSchema{S: sch})
+			}
+			for k := 0; k < 5; k++ {
+				t := schema.NewTable(fmt.Sprintf("t%d", k)).SetSchema(sch).AddColumns(schema.NewIntColumn("id", ity))
+				if en != nil {
+					t.AddColumns(schema.NewColumn("m").SetType(en))
+				}
+				sch.AddTables(t)
+				drops = append(drops, &schema.DropTable{T: t})
+			}
+			if d == "postgres" {
+				drops = append(drops, &schema.DropSchema{S: sch})
+			}
+			id := d + ": one change waiting for five later ones"
+			e.Res.Count("replan:"+id, true, "replan:"+d)
+			var first string
+			for k := 0; k < 12; k++ {
+				t := ""
+				func() {
+					defer func() {
+						if p := recover(); p != nil {
+							t = fmt.Sprintf("panic: %v", p)
+						}
+					}()
+					plan, err := pl.PlanChanges(context.Background(), "p", drops)
+					t = fmt.Sprintf("err=%v", err)
+					if err == nil {
+						for _, c := range plan.Changes {
+							t += "\n" + c.Cmd
+						}
+					}
+				}()
+				if k == 0 {
+					first = t
+				} else if t != first {
+					e.Res.Violate("failing-input", "replanning-the-same-changes-differs", fmt.Sprintf("%s: plan %d of the same change list differs from the first: %s", id, k+1, firstDiff(first, t)), "Props.C20 repeated runs", map[string]any{"case": id})
+					break
+				}
+			}
+		}
 		for _, p := range pairs {
 			cs, err := differOf(d).SchemaDiff(p.from, p.to)
 			id := fmt.Sprintf("%s: %s", d, p.name)
